@@ -1,4 +1,5 @@
 """C10 driver: run code in the real trace.py for n1+n2 instructions vs n1, snapshot, n2 more."""
+import base64
 import hashlib
 import os
 import random
@@ -156,41 +157,75 @@ def legs(args):
         if rnd.random() < 0.5:
             base.append('--python')
         fmt = rnd.choice(('szx', 'z80'))
+        # the start snapshot itself (a few hundred bytes: the RAM is almost empty) travels with the record, so that a violation can
+        # be replayed after the scratch directory is gone
+        with open(start, 'rb') as f:
+            startfile = {'name': os.path.basename(start), 'b64': base64.b64encode(f.read()).decode('ascii')}
         fa = os.path.join(sub, 'a%d.szx' % k)
-        _, e, rc = pipedrv.run_tool(trace.main, base + ['-m', str(total), start, fa])
-        if rc or not os.path.isfile(fa):
-            out.append({'key': 'legA', 'err': 'leg A rc=%s %s' % (rc, e[-200:]), 'splits': [], 'opts': base, 'fmt': fmt, 't0': t0, 'kind': kind, 'm128': int(m128)})
+        pa, e = leg_a(start, base, total, fa)
+        if pa is None:
+            out.append({'key': 'legA', 'err': e, 'splits': [], 'opts': base, 'fmt': fmt, 't0': t0, 'kind': kind, 'm128': int(m128),
+                        'total': total, 'startfile': startfile})
             continue
-        pa = project(fa)
         splits = sorted(set(rnd.sample(range(1, total), min(total - 1, 6))))
         rec = {'key': '%s/%s/%s' % (kind, fmt, '128' if m128 else '48'), 'err': '', 'opts': base, 'fmt': fmt, 't0': t0, 'kind': kind,
-               'm128': int(m128), 'total': total, 'start': start, 'splits': []}
+               'm128': int(m128), 'total': total, 'start': start, 'startfile': startfile, 'splits': []}
         for n1 in splits:
-            fm = os.path.join(sub, 'm%d_%d.%s' % (k, n1, fmt))
-            fb = os.path.join(sub, 'b%d_%d.szx' % (k, n1))
-            _, e1, rc1 = pipedrv.run_tool(trace.main, base + ['-m', str(n1), start, fm])
-            _, e2, rc2 = pipedrv.run_tool(trace.main, base + ['-m', str(total - n1), fm, fb]) if not rc1 else ('', '', 1)
-            if rc1 or rc2 or not os.path.isfile(fb):
-                rec['splits'].append({'n1': n1, 'err': 'rc=%s/%s %s %s' % (rc1, rc2, e1[-150:], e2[-150:])})
-                continue
-            pb = project(fb)
-            rd = first_diff(pa['ram'], pb['ram'])
-            pm = project(fm)
-            mpc = pm['regs'][15]
-            if mpc >= 0x4000:
-                if m128:
-                    bank = {1: 5, 2: 2, 3: pm['o7ffd'] % 8}[mpc // 0x4000]
-                    opc = pm['ram'][bank * 0x4000 + mpc % 0x4000]
-                else:
-                    opc = pm['ram'][mpc - 0x4000]
-            else:
-                opc = -1
-            sp = {'n1': n1, 'err': '', 'ramdiff': rd, 'mid_pc': mpc, 'mid_halt': 1 if opc == 0x76 else 0}
-            for f in ('regs', 'iff', 'im', 'border', 'tpos', 'o7ffd', 'offfd', 'ay', 'fe', 'memptr', 'banks'):
-                sp['a_' + f] = pa[f]
-                sp['b_' + f] = pb[f]
-            rec['splits'].append(sp)
-            for f in (fm, fb):
-                os.remove(f)
+            rec['splits'].append(split_point(sub, k, start, base, total, n1, fmt, m128, pa))
         out.append(rec)
     return out
+
+
+def leg_a(start, base, total, fa):
+    """`total` instructions in one go -> (projection of the final snapshot, '') or (None, error text)."""
+    from skoolkit import trace
+    _, e, rc = pipedrv.run_tool(trace.main, base + ['-m', str(total), start, fa])
+    if rc or not os.path.isfile(fa):
+        return None, 'leg A rc=%s %s' % (rc, e[-200:])
+    return project(fa), ''
+
+
+def split_point(sub, k, start, base, total, n1, fmt, m128, pa):
+    """n1 instructions, snapshot in format fmt, the remaining total - n1 from that snapshot -> split record (A = one go, B = resumed)."""
+    from skoolkit import trace
+    fm = os.path.join(sub, 'm%d_%d.%s' % (k, n1, fmt))
+    fb = os.path.join(sub, 'b%d_%d.szx' % (k, n1))
+    _, e1, rc1 = pipedrv.run_tool(trace.main, base + ['-m', str(n1), start, fm])
+    _, e2, rc2 = pipedrv.run_tool(trace.main, base + ['-m', str(total - n1), fm, fb]) if not rc1 else ('', '', 1)
+    if rc1 or rc2 or not os.path.isfile(fb):
+        return {'n1': n1, 'err': 'rc=%s/%s %s %s' % (rc1, rc2, e1[-150:], e2[-150:])}
+    pb = project(fb)
+    rd = first_diff(pa['ram'], pb['ram'])
+    pm = project(fm)
+    mpc = pm['regs'][15]
+    if mpc >= 0x4000:
+        if m128:
+            bank = {1: 5, 2: 2, 3: pm['o7ffd'] % 8}[mpc // 0x4000]
+            opc = pm['ram'][bank * 0x4000 + mpc % 0x4000]
+        else:
+            opc = pm['ram'][mpc - 0x4000]
+    else:
+        opc = -1
+    sp = {'n1': n1, 'err': '', 'ramdiff': rd, 'mid_pc': mpc, 'mid_halt': 1 if opc == 0x76 else 0}
+    for f in ('regs', 'iff', 'im', 'border', 'tpos', 'o7ffd', 'offfd', 'ay', 'fe', 'memptr', 'banks'):
+        sp['a_' + f] = pa[f]
+        sp['b_' + f] = pb[f]
+    for f in (fm, fb):
+        os.remove(f)
+    return sp
+
+
+def replay_case(wd, rec, n1):
+    """The recorded start snapshot and options through trace.py of the current tree again -> (fresh record, fresh split or None)."""
+    from ..lib import cbuild
+    cbuild.preload()
+    sf = rec['startfile']
+    start = os.path.join(wd, os.path.basename(sf['name']))
+    with open(start, 'wb') as f:
+        f.write(base64.b64decode(sf['b64']))
+    new = {k: rec[k] for k in ('key', 'opts', 'fmt', 't0', 'kind', 'm128', 'total') if k in rec}
+    pa, e = leg_a(start, list(rec['opts']), rec['total'], os.path.join(wd, 'a0.szx'))
+    new['err'] = e
+    if pa is None or n1 is None:
+        return new, None
+    return new, split_point(wd, 0, start, list(rec['opts']), rec['total'], n1, rec['fmt'], rec['m128'], pa)
